@@ -26,7 +26,7 @@ ASSUMPTIONS = [
     "limit relation: detects wrong powers, logarithms and O(1%) coefficient errors, not digit-level changes",
     "domain as in the property's quantifier: NC F2/FL, g1 where LeProHQ allows, CC F2/FL/F3 (NC F3, g4, gL have no asymptotic counterpart)",
 ]
-BUDGET = {"quick": {"examples": 320, "wall": 500, "min_evaluations": 100}, "thorough": {"examples": 6000, "wall": 3400, "min_evaluations": 1500}}
+BUDGET = {"quick": {"examples": 320, "wall": 500, "min_evaluations": 100}, "thorough": {"examples": 6000, "wall": 2400, "min_evaluations": 1500}}
 MANDATORY = {
     t: ["nontrivial", "process:NC", "process:CC", "heavyness:heavy", "heavyness:light", "heavyness:total", "order:1", "order:2", "kind:F2", "kind:FL", "kind:g1", "kind:F3", "h:charm", "h:bottom"]
     for t in ("quick", "thorough")
